@@ -76,25 +76,37 @@ Kind: ir.ExprAccessIndex{Base: base, Index: index},
 
 (* -> LeafModel.sets_flag / has_group_model / has_binding_model *)
 Definition reviewed_pairing_scan : string := "for _, attr := range v.Attributes {
-if attr.Name == ""group"" && len(attr.Args) > 0 {
+if attr.Name != ""group"" && attr.Name != ""binding"" {
+continue
+}
+// The attribute counts as present whatever its argument looks like;
+// a non-literal argument (e.g. a named constant) is a const-expression
+// and is evaluated, not ignored.
+var value uint32
+if len(attr.Args) > 0 {
 if lit, ok := attr.Args[0].(*parser.Literal); ok {
-group, _ := strconv.ParseUint(lit.Value, 10, 32)
+n, _ := strconv.ParseUint(lit.Value, 10, 32)
+value = uint32(n)
+} else {
+_, n, err := l.evalConstantIntExpr(attr.Args[0])
+if err != nil {
+return fmt.Errorf(""global var '%s': @%s argument: %w"", v.Name, attr.Name, err)
+}
+if n < 0 {
+return fmt.Errorf(""global var '%s': @%s argument must not be negative"", v.Name, attr.Name)
+}
+value = uint32(n)
+}
+}
 if binding == nil {
 binding = &ir.ResourceBinding{}
 }
-binding.Group = uint32(group)
+if attr.Name == ""group"" {
+binding.Group = value
 hasGroup = true
-}
-}
-if attr.Name == ""binding"" && len(attr.Args) > 0 {
-if lit, ok := attr.Args[0].(*parser.Literal); ok {
-bind, _ := strconv.ParseUint(lit.Value, 10, 32)
-if binding == nil {
-binding = &ir.ResourceBinding{}
-}
-binding.Binding = uint32(bind)
+} else {
+binding.Binding = value
 hasBinding = true
-}
 }
 }"%string.
 
@@ -110,8 +122,8 @@ return fmt.Errorf(""global var '%s': @group requires @binding attribute"", v.Nam
 
 (* -> LeafModel.array_size_model *)
 Definition reviewed_array_size : string := "if t.Size != nil {
-if n, ok := l.tryEvalConstantUint(t.Size); ok {
-if n == 0 {
+if _, n, err := l.evalConstantIntExpr(t.Size); err == nil {
+if n <= 0 {
 return 0, fmt.Errorf(""array size must be greater than 0"")
 }
 constSize := uint32(n)
@@ -119,7 +131,7 @@ size.Constant = &constSize
 }
 }"%string.
 
-(* -> LeafModel.array_size_model (uint64 conversion) *)
+(* -> no longer on the array-size path (kept: tryEvalConstantUint still exists) *)
 Definition reviewed_try_eval_uint : string := "{
 _, val, err := l.evalConstantIntExpr(expr)
 if err != nil {
